@@ -155,6 +155,12 @@ def check(s):
         eq("C04.6", "policy_state", st.get("policy_state"), ref["pol_next"],
            "carried policy state == cond(done, policy.reset(), post-action policy state)", "policy-reset",
            "after a done step the policy state restarts")
+        # the comparisons are made with the PRNG keys erased; a termination test may draw from its key, so the recorded done flag, the
+        # bootstrap guard and the two restart gates have to share ONE evaluation of env.terminal (and of env.truncate)
+        for fn_ in ("terminal", "truncate"):
+            evs = {x for x in walk(p.ret) if isinstance(x, tuple) and x and x[0] == "call" and x[1] == ("attr", ("param", "env"), fn_)}
+            s.ob("C04.6", con, len(evs) == 1, f"env.{fn_} is evaluated once per step: the recorded flag and the restart gates share that evaluation", loc, key=f"one-{fn_}-evaluation",
+                 detail="; ".join(show(x, maxlen=120) for x in sorted(evs, key=repr)), necessary_for="done is raised exactly on the steps after which the environment and the policy state restart")
         # C04.7 masks and states
         eq("C04.7", "action_masks", row.get("action_masks"), ref["mask"], "row.action_masks == env.action_mask(state.env_state)", "mask-field",
            "masks offered by the environment are the ones recorded")
@@ -221,5 +227,9 @@ def check(s):
     from .C13 import check_delegation, check_timelimit
     check_delegation(s, "C04.11", ["terminal", "truncate", "action_mask"])
     check_timelimit(s, "C04.11")
-    for r, n in (("C04.1", 4), ("C04.2", 8), ("C04.3", 4), ("C04.4", 2), ("C04.5", 4), ("C04.6", 4), ("C04.7", 6), ("C04.8", 7), ("C04.9", 6), ("C04.10", 7), ("C04.11", 30)):
+    # ---- C04.13 the record survives the estimator: collect_rollout returns post_collect's result, i.e. what
+    # compute_returns_and_advantages returns - the collected buffer with only returns / advantages filled in
+    from .C03 import check_estimator_keeps_record
+    check_estimator_keeps_record(s, "C04.13")
+    for r, n in (("C04.13", 1), ("C04.1", 4), ("C04.2", 8), ("C04.3", 4), ("C04.4", 2), ("C04.5", 4), ("C04.6", 4), ("C04.7", 6), ("C04.8", 7), ("C04.9", 6), ("C04.10", 7), ("C04.11", 30)):
         s.floor(r, n)
